@@ -65,6 +65,18 @@ Theorem chunk_invariant n voi q rows cols rows' cols' :
   index_array_chunked n voi q rows cols = index_array_chunked n voi q rows' cols'.
 Proof. intros. rewrite !index_array_chunked_char by assumption. congruence. Qed.
 
+(* purity: the index array is a function of the validity of the target pixels and of the kd-tree's answers for
+   THESE pixels only (which in turn are determined by source validity + mask, target, radius) -- nothing else,
+   in particular no earlier call on the same resampler and no other array evaluated in the same dask.compute *)
+Theorem depends_only_on_inputs n voi voi' q q' rows cols :
+  Forall (fun x => 0 <= x) rows -> Forall (fun x => 0 <= x) cols ->
+  (forall i j, 0 <= i < sumZ rows -> 0 <= j < sumZ cols -> voi i j = voi' i j /\ q i j = q' i j) ->
+  index_array_chunked n voi q rows cols = index_array_chunked n voi' q' rows cols.
+Proof.
+  intros Hr Hc H. rewrite !index_array_chunked_char by assumption. apply tab_ext. intros i j Hi Hj.
+  destruct (H i j ltac:(lia) ltac:(lia)) as [Hv Hq]. unfold index_pointwise. rewrite Hv, Hq. reflexivity.
+Qed.
+
 (* the unchunked run is the one-block chunking *)
 Lemma unchunked_is_one_block n voi q H W : 0 <= H -> 0 <= W ->
   qnd_block n voi q 0 H 0 W = index_array_chunked n voi q [H] [W].
